@@ -332,6 +332,7 @@ const DIRECTED: &[(&str, &str, &str)] = &[
     ("free_loop_variable_in_shorthand_body", "attribute sh = v => label = [v, i]\n(identifier) @x { node n for i in [1, 2] { attr (n) sh = i } }", "x\n"),
     ("calls_without_arguments_inside_calls", "(module) { node n attr (n) v = (plus 1 (plus)), w = (concat [1] (concat)), x = (and #true (or)), y = (format \"{}{}\" 1 (plus)) let zero = (plus) attr (n) z = (plus 41 1 zero) }", "pass\n"),
     ("empty_list_rendered", "(module (_)* @stmts) @m { node n attr (n) v = (format \"<{}>\" @stmts), w = (join [[], [1]]) print @stmts attr (@stmts) k = 1 }", ""),
+    ("plus_after_capture_of_optional_pattern", "(assignment left: (_) @lhs right: (_)? @rhs+) { node n attr (n) l = (source-text @lhs) print @rhs }", "with a as b, c as d:\n    match = b\nwhile x: x = x - 1\n"),
     ("plus_on_top_of_star_quantifier", "(identifier)*+ @xs { node n attr (n) x = @xs }", "x = y\n"),
 ];
 
@@ -340,7 +341,7 @@ const DIRECTED: &[(&str, &str, &str)] = &[
 pub fn differential_text(rng: &mut Rng) -> (&'static str, String, String) {
     // known panics / hangs, and programs outside the order-insensitive fragment (mutable scoped
     // variables, a scope that is read through the variable being defined)
-    const SKIP: &[&str] = &["capture_in_shorthand", "shorthand_cycle", "plus_on_top_of_star_quantifier", "scoped_set_target", "scope_read_through_same_name", "scoped_definition_while_forcing"];
+    const SKIP: &[&str] = &["capture_in_shorthand", "shorthand_cycle", "plus_on_top_of_star_quantifier", "plus_after_capture_of_optional_pattern", "scoped_set_target", "scope_read_through_same_name", "scoped_definition_while_forcing"];
     loop {
         if rng.chance(1, 4) {
             return ("seed", (*rng.pick(SEEDS)).to_string(), py::gen_any_source(rng, 6, 20));
@@ -465,10 +466,28 @@ impl Prop for C05 {
                     let sig = if stack.contains("ts_query_new") { "C05:hang:tree-sitter-query-compiler" } else { "C05:hang:load" };
                     let mut c = case.clone();
                     c["stack_of_hung_process"] = json!(crate::util::trunc(&stack, 1500));
-                    out.violation(sig, "File::from_str did not return within 4 s (median load time is below 1 ms)", c);
+                    out.violation(sig, "File::from_str did not return within 4 s or grew past 1.5 GB (median load time is below 1 ms)", c);
                     return;
                 }
                 Probe::Unavailable => out.feat("load_probe_unavailable"),
+            }
+            // the same for running the queries: tree-sitter's query cursor can grow without bound
+            // on such patterns
+            match probe_exec(&text, &source) {
+                Probe::Finished => {}
+                Probe::Hung(stack) => {
+                    out.eval();
+                    if stack.trim().is_empty() {
+                        out.inconclusive("exec-probe hung and its stack could not be sampled (gdb unavailable?)");
+                        return;
+                    }
+                    let sig = if stack.contains("ts_query_cursor") { "C05:hang:tree-sitter-query-cursor" } else if stack.contains("ts_query_new") { "C05:hang:tree-sitter-query-compiler" } else { "C05:hang:execute" };
+                    let mut c = case.clone();
+                    c["stack_of_hung_process"] = json!(crate::util::trunc(&stack, 1500));
+                    out.violation(sig, "File::execute did not return within 4 s or grew past 1.5 GB", c);
+                    return;
+                }
+                Probe::Unavailable => out.feat("exec_probe_unavailable"),
             }
         }
         // (a) loading
@@ -591,13 +610,22 @@ enum Probe {
 }
 
 fn probe_load(text: &str) -> Probe {
+    probe_child(&["load-probe"], text)
+}
+
+/// load and execute (strict) in a child process
+fn probe_exec(text: &str, source: &str) -> Probe {
+    probe_child(&["exec-probe", "-", "strict"], &json!({"dsl": text, "source": source}).to_string())
+}
+
+fn probe_child(args: &[&str], text: &str) -> Probe {
     use std::io::Write;
     use std::process::{Command, Stdio};
     let exe = match std::env::current_exe() {
         Ok(e) => e,
         Err(_) => return Probe::Unavailable,
     };
-    let mut child = match Command::new(exe).arg("load-probe").stdin(Stdio::piped()).stdout(Stdio::null()).stderr(Stdio::null()).spawn() {
+    let mut child = match Command::new(exe).args(args).stdin(Stdio::piped()).stdout(Stdio::null()).stderr(Stdio::null()).spawn() {
         Ok(c) => c,
         Err(_) => return Probe::Unavailable,
     };
@@ -612,6 +640,12 @@ fn probe_load(text: &str) -> Probe {
             Err(_) => return Probe::Unavailable,
         }
         if t0.elapsed().as_secs_f64() > 4.0 {
+            break;
+        }
+        // a loader that allocates without bound is stopped (and its stack sampled) long before
+        // it can exhaust the machine
+        let resident = std::fs::read_to_string(format!("/proc/{}/statm", child.id())).ok().and_then(|t| t.split_whitespace().nth(1).and_then(|x| x.parse::<u64>().ok())).unwrap_or(0) * 4096;
+        if resident > 1_500_000_000 {
             break;
         }
         std::thread::sleep(std::time::Duration::from_millis(5));
